@@ -621,3 +621,56 @@ def concat_parts(e):
         add("e", unparse(x))
         return True
     return out if go(e) else None
+
+
+# ---- per-instance state ------------------------------------------------------------------------------------------------------------
+_MUTATORS = {"append", "appendleft", "extend", "add", "update", "pop", "popleft", "remove", "discard", "clear", "insert", "setdefault", "popitem", "sort"}
+_CONTAINER_CALLS = {"list", "dict", "set", "deque", "defaultdict", "OrderedDict", "collections.deque", "collections.defaultdict", "collections.OrderedDict", "Counter",
+                    "collections.Counter", "bytearray"}
+
+
+def shared_class_containers(repo, cls_qualnames):
+    """Class-level attributes that hold a mutable container, are mutated in place through `self.<attr>` somewhere in the class (or
+    subscripted-assigned) and are NOT re-bound per instance in __init__: one object shared by every instance of the class.
+    Returns [(class info, attribute, class-body statement, (method, line) of a mutation)]."""
+    out = []
+    for cq in cls_qualnames:
+        try:
+            ci = repo.cls(cq)
+        except Exception:
+            continue
+        cand = {}
+        for st in ci.node.body:
+            tgt = val = None
+            if isinstance(st, ast.Assign) and len(st.targets) == 1 and isinstance(st.targets[0], ast.Name):
+                tgt, val = st.targets[0].id, st.value
+            elif isinstance(st, ast.AnnAssign) and isinstance(st.target, ast.Name) and st.value is not None:
+                tgt, val = st.target.id, st.value
+            if tgt is None:
+                continue
+            if isinstance(val, (ast.List, ast.Dict, ast.Set, ast.ListComp, ast.DictComp, ast.SetComp)) or \
+                    (isinstance(val, ast.Call) and unparse(val.func) in _CONTAINER_CALLS):
+                cand[tgt] = st
+        if not cand:
+            continue
+        init = ci.methods.get("__init__")
+        rebound = set()
+        if init is not None:
+            for n in ast.walk(init.node):
+                if isinstance(n, ast.Attribute) and isinstance(n.ctx, ast.Store) and isinstance(n.value, ast.Name) and n.value.id == "self":
+                    rebound.add(n.attr)
+        for attr, st in cand.items():
+            if attr in rebound:
+                continue
+            hit = None
+            for mname, m in ci.methods.items():
+                for n in ast.walk(m.node):
+                    if isinstance(n, ast.Call) and isinstance(n.func, ast.Attribute) and n.func.attr in _MUTATORS and unparse(n.func.value) == f"self.{attr}":
+                        hit = (mname, n.lineno)
+                    if isinstance(n, ast.Subscript) and isinstance(n.ctx, (ast.Store, ast.Del)) and unparse(n.value) == f"self.{attr}":
+                        hit = (mname, n.lineno)
+                    if isinstance(n, ast.AugAssign) and unparse(n.target) == f"self.{attr}":
+                        hit = None if hit is None else hit
+            if hit is not None:
+                out.append((ci, attr, st, hit))
+    return out
